@@ -343,7 +343,14 @@ func importRules(c *Ctx, run func(*Ctx), rename map[string]string) {
 }
 
 // importRulesWhere: like importRules, restricted to the obligations keep accepts (by construct).
+var importing bool
+
 func importRulesWhere(c *Ctx, run func(*Ctx), rename map[string]string, keep func(*Obligation) bool) {
+	if importing {
+		return // imports do not nest (C09 takes the halving rule from C18, C18 the estimate rule from C09)
+	}
+	importing = true
+	defer func() { importing = false }()
 	sub := &Ctx{L: newLedger(c.L.Prop), P: c.P, Tier: c.Tier}
 	sub.L.P = c.P
 	run(sub)
